@@ -20,11 +20,11 @@ from runtime.harness import Harness
 NoneType = type(None)
 FILES = {
     "zz11.py": "class B:\n    class Nested:\n        pass\n\nclass zz11:\n    pass\n",
-    "pkg11/__init__.py": "",
+    "pkg11/__init__.py": "class Root:\n    pass\n",
     "pkg11/zz11.py": "class B:\n    pass\n\nclass C:\n    pass\n",
     "foo11.py": "class Baz:\n    pass\n\nclass foo11:\n    class Inner:\n        pass\n",
     "barfoo11.py": "class Baz:\n    pass\n",
-    "target11.py": "class Own:\n    class Deep:\n        pass\n\ndef f(x):\n    return x\n\ndef g(d):\n    return d\n\nclass K:\n    def m(self, x):\n        return x\n",
+    "target11.py": "class Own:\n    class Deep:\n        pass\n\ndef f(x):\n    return x\n\ndef g(d):\n    return d\n\ndef h(x, y):\n    return x\n\nclass K:\n    def m(self, x):\n        return x\n",
 }
 
 
@@ -156,6 +156,31 @@ def run(ctx):
                                 {"evaluated": repr(got), "stub": text[-600:]})
                 else:
                     H.ok(key, sample={"type": infer.short(t), "position": pos, "stub_tail": text[-160:]})
+        pk = importlib.import_module("pkg11")
+        cls_leaves = [c for c in leaves if isinstance(c, type) and c.__module__ not in ("builtins",)] + [pk.Root]
+        H.section("two annotations in one signature", "ordered pairs of classes from modules whose names overlap (a package and its submodule, zz11 / pkg11.zz11, foo11 / barfoo11) as the two parameter types of "
+                  "one function: each annotation eval-ed in the stub's own namespace denotes its class", "%d ordered pairs" % (len(cls_leaves) * (len(cls_leaves) - 1)))
+        for a in cls_leaves:
+            for b in cls_leaves:
+                if a is b:
+                    continue
+                key = "pair|%s|%s" % (infer.short(a), infer.short(b))
+                try:
+                    text = build_module_stubs_from_traces([CallTrace(target.h, {"x": a, "y": List[b]}, int)], 10)["target11"].render()
+                    anns, classes = evaluate_stub(text, target)
+                    got = anns.get("h", {})
+                    okp = got.get("x") is a and spec_c.tyeq(got.get("y"), List[b])
+                    err = None
+                except Exception as e:      # noqa
+                    okp, err, got = False, e, {}
+                    text = locals().get("text", "")
+                if okp:
+                    H.ok(key, sample={"pair": key, "stub_tail": text[-120:]})
+                else:
+                    names = [a.__qualname__.split(".")[0], b.__qualname__.split(".")[0]]      # the names the import block binds
+                    kind = "C11-same-name-two-modules" if (names[0] == names[1] and a.__module__ != b.__module__) else "pair-denotes|%s|%s" % (key, type(err).__name__ if err else infer.short(got))
+                    H.violation("monkeytype.stubs:FunctionStub.render", kind, "with two classes from textually overlapping modules in one signature an annotation does not evaluate to its class",
+                                {"x": repr(a), "y": repr(List[b])}, {"error": repr(err), "evaluated": repr(got), "stub": text[-500:]})
     finally:
         sys.path.remove(tmp)
         for n in ("zz11", "pkg11.zz11", "pkg11", "foo11", "barfoo11", "target11"):
